@@ -1010,8 +1010,14 @@ pub fn identity(d: &mut D) {
             }
             let addr = d.g.byte() & 0x7F;
             d.new_ctx(5, addr, &mts, &[(0, [0, 0, 1, 2], [3, 4])]);
-            let queries = |d: &mut D| {
-                for name in ["get_message_type_suport", "get_endpoint_uuid", "get_mctp_version_support"] {
+            // the order of the three queries rotates from call to call, so that each of them is at times the
+            // last packet before a state change (and is then retransmitted right after it, see D::ex)
+            let mut turn = 0usize;
+            let mut queries = |d: &mut D| {
+                turn += 1;
+                let names = ["get_message_type_suport", "get_endpoint_uuid", "get_mctp_version_support"];
+                for k in 0..3 {
+                    let name = names[(k + turn) % 3];
                     let a = if name == "get_mctp_version_support" { json!({"dst":addr,"query":*d.g.pick(&VERSION_QUERIES)}) } else { json!({"dst":addr}) };
                     let src = d.g.byte() & 0x7F;
                     let iid = d.g.byte() & 0x1F;
